@@ -67,6 +67,13 @@ TemplateLeftover(toks) ==
     \E i \in DOMAIN toks : /\ P(toks[i], "{") /\ i + 1 <= Len(toks)
                            /\ \/ P(toks[i + 1], "{")
                               \/ (i + 2 <= Len(toks) /\ toks[i + 1].t = "id" /\ P(toks[i + 2], "}"))
+At(toks, i) == IF i \in DOMAIN toks THEN toks[i] ELSE [t |-> "none", s |-> ""]
+\* a list / map separator with nothing on one side of it
+DanglingSeparator(toks) ==
+    \E i \in DOMAIN toks : /\ P(toks[i], ",")
+                           /\ \/ i = 1 \/ i = Len(toks)
+                              \/ (At(toks, i + 1).t = "p" /\ At(toks, i + 1).s \in {"}", ")", "]", ","})
+                              \/ (At(toks, i - 1).t = "p" /\ At(toks, i - 1).s \in {"{", "(", "["})
 CommentOpener(toks) == \E i \in 1..(Len(toks) - 1) : (P(toks[i], "/") /\ (P(toks[i + 1], "/") \/ P(toks[i + 1], "*")))
 ParamsUsed(toks) == {toks[i].s : i \in {j \in DOMAIN toks : toks[j].t = "param"}}
 
@@ -77,7 +84,6 @@ KwUpper == {"MATCH", "OPTIONAL", "WHERE", "WITH", "RETURN", "UNWIND", "CALL", "A
 Kw == KwLower \cup KwUpper
 IsKw(tk, names) == tk.t = "id" /\ tk.s \in names
 IsVar(tk) == tk.t = "id" /\ tk.s \notin Kw
-At(toks, i) == IF i \in DOMAIN toks THEN toks[i] ELSE [t |-> "none", s |-> ""]
 \* identifiers in binding position
 YieldBound(toks) ==                                   \* YIELD a, b AS c ... up to the next keyword
     {toks[k].s : k \in {j \in DOMAIN toks : IsVar(toks[j]) /\ \E y \in 1..(j - 1) :
@@ -108,6 +114,7 @@ Defect(text, params) ==
     ELSE IF ~Balanced(toks) THEN "unbalanced brackets"
     ELSE IF TemplateLeftover(toks) THEN "unexpanded template fragment"
     ELSE IF CommentOpener(toks) THEN "comment opener in statement"
+    ELSE IF DanglingSeparator(toks) THEN "dangling separator"
     ELSE IF ~(ParamsUsed(toks) \subseteq params) THEN "parameter named but not supplied"
     ELSE IF Unbound(toks) # {} THEN "variable referenced but never bound"
     ELSE ""
